@@ -248,7 +248,7 @@ impl ResponseHandler {
         if self.validate_sig(pubk, sig_value, &cert_data) {
             println!("Valid signature on DELE tag");
         } else {
-            println!("INVALID signature on DELE tag, response may not be authentic");
+            panic!("INVALID signature on DELE tag, response is not authentic");
         }
     }
 
@@ -261,7 +261,7 @@ impl ResponseHandler {
         if self.validate_sig(pubk, sig_value, &srep_data) {
             println!("Valid signature on SREP tag");
         } else {
-            println!("INVALID signature on SREP tag, response may not be authentic");
+            panic!("INVALID signature on SREP tag, response is not authentic");
         }
     }
 
